@@ -1187,7 +1187,70 @@ def check_C18(ctx):
     return finish_with_proofs(ctx)
 
 
-CHECKS = {'C01': check_C01, 'C02': check_C02, 'C07': check_C07, 'C09': check_C09, 'C16': check_C16, 'C17': check_C17, 'C18': check_C18, 'C08': check_C08, 'C10': check_C10, 'C11': check_C11, 'C03': check_C03, 'C04': check_C04, 'C05': check_C05, 'C06': check_C06}
+# ------------------------------------------------------------------ C20 -----
+def check_C20(ctx):
+    proofs_or_violation(ctx, ['Properties_C20.v'])
+    pool = get_pool()
+    rng = ctx.rng
+    W = {'u8': 1, 'i8': 1, 'u16': 2, 'i16': 2, 'u32': 4, 'i32': 4, 'f32': 4, 'u64': 8, 'i64': 8, 'f64': 8}
+    lines = []
+    for k, w in W.items():
+        vals = set()
+        b = 8 * w
+        vals |= {0, 1, (1 << b) - 1, 1 << (b - 1), (1 << (b - 1)) - 1, 0x0102030405060708 & ((1 << b) - 1), 0xff, 0xff00 & ((1 << b) - 1)}
+        if k == 'f32':
+            vals |= {0x3f800000, 0x7fc00001, 0xffc12345, 0x7f800000, 0x80000000, 0x00000001}
+        if k == 'f64':
+            vals |= {0x3ff0000000000000, 0x7ff8000000000001, 0xfff8123456789abc, 0x7ff0000000000000, 1}
+        for i in range(w):
+            vals.add(0xa5 << (8 * i))
+        for _ in range(40 if ctx.quick else 4000):
+            vals.add(rng.getrandbits(b))
+        if w == 1:
+            vals |= set(range(256))
+        for v in sorted(vals):
+            lines.append((k, w, v, 'endian %s %d' % (k, v)))
+    ho = run_prim(pool, [l[3] for l in lines])
+    mo = run_driver(pool, [l[3] for l in lines])
+    for (k, w, v, line), o, m in zip(lines, ho, mo):
+        ctx.count('values:' + k, line)
+        if o.startswith(('CRASH', 'HARNESS', 'EXCEPTION', 'OOM')):
+            ctx.violate('memory-error', 'HostEndian crashed or tripped a sanitizer: %s -> %s' % (line, o[:300]), {'case': line, 'output': o})
+            continue
+        f = sx.fields(o)
+        rev = int.from_bytes(v.to_bytes(w, 'little'), 'big')
+        want = {'fl': v, 'tl': v, 'fb': rev, 'tb': rev, 'rtb': v, 'rtl': v}
+        got = {x: int(f[x]) for x in want}
+        if got != want:
+            ctx.violate('wrong-byte-order', 'HostEndian<%s> on bit pattern %#x: got %s, a little-endian host requires %s' % (k, v, got, want), {'case': line, 'output': o, 'expected': want})
+        elif not m.startswith('DRIVER') and sx.fields(m) != f:
+            ctx.violate('corr:endian', 'model disagrees: %s vs %s' % (m, o), {'no_failing_input': True, 'case': line, 'model': m, 'output': o})
+    # exhaustive sweeps in C++ against an independent byte reversal: 8/16 bit always, 32 bit in the thorough tier
+    sweeps = [('u8', 0, 256), ('i8', 0, 256), ('u16', 0, 65536), ('i16', 0, 65536)]
+    if ctx.quick:
+        for k in ('u32', 'i32', 'f32'):
+            for _ in range(4):
+                lo = rng.randrange(0, (1 << 32) - (1 << 20))
+                sweeps.append((k, lo, lo + (1 << 20)))
+            sweeps.append((k, (1 << 32) - (1 << 20), 1 << 32))
+            sweeps.append((k, 0x7f800000, 0x7f800000 + (1 << 20)))
+    else:
+        for k in ('u32', 'i32', 'f32'):
+            for c in range(64):
+                sweeps.append((k, c << 26, (c + 1) << 26))
+    so = run_prim(pool, ['endiansweep %s %d %d' % s for s in sweeps])
+    exhaustive = 0
+    for s, o in zip(sweeps, so):
+        ctx.count('sweep:' + s[0], 'endiansweep %s %d %d' % s)
+        f = sx.fields(o) if o.startswith('n=') else {}
+        if f.get('bad') != '0':
+            ctx.violate('wrong-byte-order', 'exhaustive sweep of HostEndian<%s> over [%d,%d): %s' % (s[0], s[1], s[2], o[:200]), {'sweep': s, 'output': o})
+        else:
+            exhaustive += int(f['n'])
+    return finish_with_proofs(ctx, {'values_swept_in_cxx': exhaustive})
+
+
+CHECKS = {'C01': check_C01, 'C02': check_C02, 'C07': check_C07, 'C09': check_C09, 'C16': check_C16, 'C17': check_C17, 'C18': check_C18, 'C20': check_C20, 'C08': check_C08, 'C10': check_C10, 'C11': check_C11, 'C03': check_C03, 'C04': check_C04, 'C05': check_C05, 'C06': check_C06}
 
 
 def run(pid, tier, seed, replay=None):
